@@ -152,27 +152,52 @@ def run(rep: Report, tier: str) -> None:
     # ---- R18.4: a Date column of a DataFrame is stored as TIMESTAMP as soon as ANY value carries a time (the CSV loader always does) ----
     rep.rule("R18.4", "DataFrame Date column: TIMESTAMP iff some value has a time part (existential decision over all values)")
     dd = P.func("vtlengine.duckdb_transpiler.io._io._detect_date_type_overrides")
-    sets_ = [n for n in walk_no_nested(dd.node) if isinstance(n, ast.Assign) and isinstance(n.targets[0], ast.Subscript) and src(n.targets[0].value) == "overrides"]
-    rep.instance("R18.4", "existential-decision", nontrivial=True, sample=[src(x)[:60] for x in sets_])
-    if not sets_:
-        raise AnalysisError("_detect_date_type_overrides: the TIMESTAMP override assignment was not found")
-    for a_ in sets_:
-        # enclosing loop over the column's values with a per-value test, or an `.any()` reduction
-        p_ = getattr(a_, "_parent", None)
-        per_value_loop = False
-        conds = []
-        while p_ is not None and not isinstance(p_, (ast.FunctionDef, ast.AsyncFunctionDef)):
-            if isinstance(p_, ast.If):
-                conds.append(src(p_.test))
-            if isinstance(p_, ast.For) and "components" not in src(p_.iter):
-                per_value_loop = True
-                break
-            p_ = getattr(p_, "_parent", None)
-        reductions = {c_.func.attr for c_ in ast.walk(dd.node) if isinstance(c_, ast.Call) and isinstance(c_.func, ast.Attribute) and c_.func.attr in ("all", "any")} | \
-            {c_.func.id for c_ in ast.walk(dd.node) if isinstance(c_, ast.Call) and isinstance(c_.func, ast.Name) and c_.func.id in ("all", "any")}
-        if not per_value_loop and "any" not in reductions or "all" in reductions:
-            rep.add(Finding("R18.4", "R18.4/existential-decision", dd.module.rel, a_.lineno, dd.qualname,
-                            f"the TIMESTAMP decision for a DataFrame Date column is not `some value has a time part` (reductions used: {sorted(reductions) or 'none'}; per-value loop: {per_value_loop}): "
-                            f"a column mixing plain dates and date-times is stored as DATE and the times are silently dropped, while the CSV loader (always TIMESTAMP) keeps them"))
+    # decided by evaluating the function (finite evaluator) on model columns: all dates / one date-time in first, middle, last position
+    from sa.e6 import Unmodelled as _Unm
+
+    class _Col:
+        def __init__(self, vals: List[Any]) -> None:
+            self.vals = vals
+
+        def dropna(self) -> List[Any]:
+            return [v for v in self.vals if v is not None]
+
+        def __iter__(self):
+            return iter(self.vals)
+
+    class _DF:
+        def __init__(self, cols: Dict[str, List[Any]]) -> None:
+            self.cols = cols
+            self.columns = list(cols)
+
+        def __getitem__(self, k: str) -> "_Col":
+            return _Col(self.cols[k])
+    D, T_ = "2020-01-15", "2020-01-16 10:30:00"
+    cases = {"all-dates": ([D, D, D], False), "first-has-time": ([T_, D, D], True), "middle-has-time": ([D, T_, D], True), "last-has-time": ([D, D, T_], True),
+             "all-have-time": ([T_, T_], True), "iso-T-separator": ([D, "2020-01-16T10:30:00"], True), "nulls-and-time": ([None, D, None, T_], True)}
+    comp = ExternalObj({"role": "Measure", "nullable": True, "data_type": ClassVal("vtlengine.DataTypes.Date"), "name": "C"})
+    other = ExternalObj({"role": "Measure", "nullable": True, "data_type": ClassVal("vtlengine.DataTypes.String"), "name": "S"})
+    for label, (vals, want) in cases.items():
+        try:
+            got = Interp(P).call(dd, {"df": _DF({"C": vals, "S": [T_]}), "components": {"C": comp, "S": other}})
+        except (_Unm, Raised) as e:
+            # a vectorised (pandas) formulation is outside the evaluator: decide by the reduction it uses
+            reductions = {c_.func.attr for c_ in ast.walk(dd.node) if isinstance(c_, ast.Call) and isinstance(c_.func, ast.Attribute) and c_.func.attr in ("all", "any")} | \
+                {c_.func.id for c_ in ast.walk(dd.node) if isinstance(c_, ast.Call) and isinstance(c_.func, ast.Name) and c_.func.id in ("all", "any")}
+            rep.instance("R18.4", "existential-decision/by-reduction", nontrivial=True, sample={"reductions": sorted(reductions), "not evaluated because": str(e)[:80]})
+            if "all" in reductions:
+                rep.add(Finding("R18.4", "R18.4/existential-decision", dd.module.rel, dd.node.lineno, dd.qualname,
+                                f"the TIMESTAMP decision for a DataFrame Date column is not `some value has a time part` (reductions used: {sorted(reductions)}): "
+                                f"a column mixing plain dates and date-times is stored as DATE and the times are silently dropped, while the CSV loader (always TIMESTAMP) keeps them"))
+            elif "any" not in reductions:
+                raise AnalysisError(f"R18.4: _detect_date_type_overrides is neither evaluable ({e}) nor an any()/all() reduction")
+            break
+        rep.instance("R18.4", f"existential-decision/{label}", nontrivial=True, sample={"values": vals, "overrides": got})
+        is_ts = isinstance(got, dict) and str(got.get("C", "")).upper() == "TIMESTAMP"
+        if is_ts != want or (isinstance(got, dict) and "S" in got):
+            rep.add(Finding("R18.4", "R18.4/existential-decision", dd.module.rel, dd.node.lineno, dd.qualname,
+                            f"DataFrame Date column with the values {vals}: stored as {'TIMESTAMP' if is_ts else 'DATE'} (overrides = {got}); it must be TIMESTAMP exactly when SOME value has a "
+                            f"time part: a column mixing plain dates and date-times stored as DATE silently drops the times, while the CSV loader (always TIMESTAMP) keeps them"))
+            break
     rep.assumptions = ["a CSV value and a string-typed DataFrame/Parquet value with the same text must meet the same rejecting guards",
                        "guards are recognised by error(), regexp_matches and FLOOR/TRUNC integrality tests in the emitted SQL"]
